@@ -344,6 +344,8 @@ class Ctx:
     in_sched = False
     preempt_at = ()         # line-event counts at which a task is pre-empted
     trace_root = None       # only lines of files under this directory count
+    line_hook = None        # class-level: tools/linecov.py sets it to collect the lines executed by task threads
+    line_root = None
     line_events = 0
     preemptions = 0
 
@@ -362,12 +364,16 @@ class Ctx:
 
     def _tracer(self, frame, event, arg):
         # global trace function of a task thread: trace only canopen frames
-        if frame.f_code.co_filename.startswith(self.trace_root):
+        if frame.f_code.co_filename.startswith(self.trace_root or Ctx.line_root):
+            if Ctx.line_hook is not None:
+                Ctx.line_hook(frame)
             return self._line_tracer
         return None
 
     def _line_tracer(self, frame, event, arg):
         if event == "line":
+            if Ctx.line_hook is not None:
+                Ctx.line_hook(frame)
             self.line_events += 1
             if self.line_events in self.preempt_at and not self.in_sched and not self.aborting:
                 me = self.current
@@ -382,7 +388,7 @@ class Ctx:
         try:
             if self.aborting:
                 raise SimAbort()
-            if self.preempt_at:
+            if self.preempt_at or Ctx.line_hook is not None:
                 import sys
                 sys.settrace(self._tracer)
             task.result = task.fn()
@@ -392,7 +398,7 @@ class Ctx:
         except BaseException as e:      # noqa
             task.exc = e
         finally:
-            if self.preempt_at:
+            if self.preempt_at or Ctx.line_hook is not None:
                 import sys
                 sys.settrace(None)
         task.state = "done"
